@@ -18,7 +18,7 @@ class C02(FprCheck):
     rule = ("seeded conformers x option draws over the full product (level incl. -1, multiplier, stereo, counts, bits, "
             "include_disconnected, rdkit_invariants, exclude_floating, remove_duplicate_substructs) x atom masks (every "
             "singleton of small molecules, random subsets); the Lean model is the executable specification (own MurmurHash3, "
-            "own geometry); plus the golden corpus of identifiers per level. Non-trivial: >= 2 levels; distinct by case.")
+            "own geometry); plus the golden corpus of identifiers per level; heavy atoms labelled 11C / 32P / 33P / 75Se / 25Na / 13C / 15N / 18O under both invariant schemes; every second level query made with a NumPy integer. Non-trivial: >= 2 levels; distinct by case.")
 
     def corpus_cases(self):
         # the golden file holds complete cases with the identifiers the model produced when it was written
